@@ -81,7 +81,7 @@ PROPS = {
     "C03": P(["tri"], tb=TRI_TB, assumptions=TRI_AS,
              partial="the tiling clauses (inside, pairwise disjoint, area sum) are decided by the exact integer oracle on every explored input (exhaustive on the 4x4 lattice up to 6 vertices); the all-input theorems cover non-degeneracy, corners and the local geometry; for triangles, all simple quadrilaterals and all simple x-monotone n-gons with distinct abscissae the count, corners, non-degeneracy and exact total area of the output are theorems (C04Triangle, C04Quad, C04QuadV, C04Convex, C04Monotone); C03General.general_output_full: for EVERY valid polygon set with pairwise distinct abscissae (components, holes, islands to any depth, non-monotone polygons) the model returns, with the ghost flag true, exactly triCount triangles (n_i - 2 per polygon at even nesting depth, n_i + 2 at odd depth, the depth parity defined from the geometry by ray crossing), all non-degenerate, with corners among the input vertices, whose absolute areas add up to the even-odd area |sum (-1)^depth |shoelace_i|| - what is NOT proved is that each triangle lies inside the region and that interiors are pairwise disjoint (with the exact area identity and containment this would be the tiling; decided by the exact oracle on every explored input), and inputs with equal abscissae beyond quadrilaterals"),
     "C04": P(["tri"], tb=TRI_TB, assumptions=TRI_AS,
-             partial="acceptance is a theorem for every non-degenerate triangle (C04Triangle.triangle_accepted_general, vertical edges included) and every simple quadrilateral with distinct abscissae (C04Quad.quad_accepted: convex, reflex Bend, improper Start, merging End; two triangles, exact area, ghost order flag true); C04Ties/C04Order justify the comparator's tie rules and the list model of the B-tree; C04QuadV.quad_accepted_general removes the distinct-abscissae hypothesis (vertical edges, aligned vertices); C04Convex.convex_accepted: every strictly convex x-monotone polygon with n >= 3 vertices and distinct abscissae, any start vertex and orientation, yields n-2 non-degenerate triangles with input corners and total area |shoelace|, ghost flag true (induction over the event queue); C04Monotone.monotone_accepted: the same for every simple x-monotone polygon with distinct abscissae, reflex vertices on both chains allowed (the back-chain grows and is cut in fans: polygon-independent fan lemma nt_fwd_fan / nt_bwd_fan); C04General.general_accepted is the general theorem in general position: EVERY valid polygon set all of whose vertex abscissae are pairwise distinct (any number of components, holes, islands in holes to any depth, non-monotone polygons with splitting Starts and merging Ends, either orientation, any start vertex, any polygon order) is accepted with the ghost order flag true - validity stated with orientation determinants (edges without a common vertex are apart, no spikes), proved via an invariant GInv over an arbitrary number of active edges/intervals preserved by every handler (ginv_bend, ginv_end, ginv_start) and a proof that validity excludes crossings of the left-to-right edges; what remains outside theorems is input with equal abscissae / vertical edges beyond triangles and quadrilaterals (decided by exhaustive enumeration + structured generators, where such inputs are dense) and count/corners/area for non-monotone inputs"),
+             partial="acceptance is a theorem for every non-degenerate triangle (C04Triangle.triangle_accepted_general, vertical edges included) and every simple quadrilateral with distinct abscissae (C04Quad.quad_accepted: convex, reflex Bend, improper Start, merging End; two triangles, exact area, ghost order flag true); C04Ties/C04Order justify the comparator's tie rules and the list model of the B-tree; C04QuadV.quad_accepted_general removes the distinct-abscissae hypothesis (vertical edges, aligned vertices); C04Convex.convex_accepted: every strictly convex x-monotone polygon with n >= 3 vertices and distinct abscissae, any start vertex and orientation, yields n-2 non-degenerate triangles with input corners and total area |shoelace|, ghost flag true (induction over the event queue); C04Monotone.monotone_accepted: the same for every simple x-monotone polygon with distinct abscissae, reflex vertices on both chains allowed (the back-chain grows and is cut in fans: polygon-independent fan lemma nt_fwd_fan / nt_bwd_fan); C04General.general_accepted is the general theorem in general position: EVERY valid polygon set all of whose vertex abscissae are pairwise distinct (any number of components, holes, islands in holes to any depth, non-monotone polygons with splitting Starts and merging Ends, either orientation, any start vertex, any polygon order) is accepted with the ghost order flag true - validity stated with orientation determinants (edges without a common vertex are apart, no spikes), proved via an invariant GInv over an arbitrary number of active edges/intervals preserved by every handler (ginv_bend, ginv_end, ginv_start) and a proof that validity excludes crossings of the left-to-right edges; and C04GeneralV.general_accepted_V removes the hypothesis on the abscissae altogether: EVERY valid polygon set (>= 3 vertices, pairwise distinct vertices, edges without a common vertex apart, no spikes; vertical edges and any number of vertices on one vertical line allowed - L, U, plus, rectangles with rectangular holes) is accepted with the ghost flag true (a shear x+eps*y with an explicit eps makes the order of abscissae the lexicographic order without changing any orientation determinant; bridging lemmas turn order facts of the sheared ring into the comparator's answers on the original points including every tie rule, and verticalIsCrossed provably never fires on valid input); this is property C04 for the model in exact arithmetic; what remains outside theorems is floating-point rounding (explored: bit-exact correspondence, exhaustive enumeration, exact affine images) and the known overflow findings"),
     "C15": P(["tri"], tb=TRI_TB, assumptions=TRI_AS,
              partial="C15Heap proves for every input that the model never fails with a heap-encoding panic (model-bad-*), never reaches `unreachable`, and (over XQ) never indexes a missing registered edge (`index`): C15General.general_total: for EVERY polygon set in general position (>= 3 vertices, distinct abscissae, no spikes, no vertex on another edge) the model returns either Ok (ghost flag true) or an Overlap error naming an input point - never a panic of any kind, never out-of-fuel, never another error; and Ok holds exactly when no two edges meet (general_accept_iff); for degenerate inputs the only panic kind not excluded outright is a RefCell `borrow` conflict: C15Borrow proves it can only be raised in a pass that starts with a self-loop or coinciding partners among the edges registered with the vertex being handled, an executable monitor of exactly that condition (Model/SweepMon.lean, proved identical to the theorem's monitor in C15Monitor) runs in the driver next to every compared input, and the harness reports any input on which it drops (never observed; the prover's own search of 2.6e8 lattice inputs found none); the deep field-wise `==` of BTreeSet::range's sanity check is modelled by identity only"),
     "C16": P(["tri"], tb=TRI_TB, assumptions=TRI_AS,
@@ -212,8 +212,8 @@ LEVEL_TEXT["C03"].update({
     "note": "Trusts: Lean kernel, heap/list models of Rc/BTreeSet/BTreeMap (ghost monitors + C04Order/C15Monitor theorems say when the list model stands for the B-tree and when no panic can occur), harness oracle. Containment in the region and pairwise disjointness of the triangles are not proved (n > 4); they, and inputs with equal abscissae, are decided by the exact oracle.",
     "technique": "Lean 4 full-path theorems (symbolic execution + induction over the event queue) on a heap-explicit sweep model + exhaustive small-lattice enumeration with exact oracle"})
 LEVEL_TEXT["C04"].update({
-    "text": "C04General.general_accepted: EVERY valid polygon set with pairwise distinct vertex abscissae (components, holes, islands to any depth, non-monotone polygons) is accepted by the sweep model in exact arithmetic with the ghost order flag true (invariant over an arbitrary number of active edges, preserved by all handlers). Further acceptance theorems on the sweep model in exact arithmetic, full path (validation, set-up, event queue, Start/Bend/End handlers, back-chain split/merge/fans), each with the ghost order-consistency flag true: every non-degenerate triangle; every simple quadrilateral (convex, reflex Bend, improper Start, merging End; equal abscissae and vertical edges included); every strictly convex x-monotone n-gon and every simple x-monotone n-gon with distinct abscissae (n arbitrary: induction over the event queue, polygon-independent fan lemma). C04Ties: the comparator's tie rules (incl. the one added by repair 745c06b) agree with the geometric order; C04Order: while the ghost flag holds, any comparison-based search tree returns what the model's list scan returns. Outside these classes: exhaustive enumeration of all 17.9M vertex sequences up to 6 vertices on the 4x4 lattice, structured families with holes/islands under symmetries, stacked bands (up to 20 active edges), exact affine images (aspect ratios to 2^1000), mixed-scale pairs, 40 000-vertex polygons; the model at Float and XQ reproduces every Ok/Err.",
-    "note": "Equal abscissae / vertical edges are covered by theorems only for triangles and quadrilaterals, otherwise by exhaustive enumeration. Genuine defects repaired by fix commits 18aefee and 745c06b; overflow of coordinate differences / gradients recorded as known findings.",
+    "text": "C04GeneralV.general_accepted_V: EVERY valid polygon set (pairwise distinct vertices, edges apart, no spikes; vertical edges and equal abscissae allowed) is accepted by the sweep model in exact arithmetic with the ghost order flag true - property C04 for the model. C04General.general_accepted: the same for pairwise distinct vertex abscissae (components, holes, islands to any depth, non-monotone polygons) is accepted by the sweep model in exact arithmetic with the ghost order flag true (invariant over an arbitrary number of active edges, preserved by all handlers). Further acceptance theorems on the sweep model in exact arithmetic, full path (validation, set-up, event queue, Start/Bend/End handlers, back-chain split/merge/fans), each with the ghost order-consistency flag true: every non-degenerate triangle; every simple quadrilateral (convex, reflex Bend, improper Start, merging End; equal abscissae and vertical edges included); every strictly convex x-monotone n-gon and every simple x-monotone n-gon with distinct abscissae (n arbitrary: induction over the event queue, polygon-independent fan lemma). C04Ties: the comparator's tie rules (incl. the one added by repair 745c06b) agree with the geometric order; C04Order: while the ghost flag holds, any comparison-based search tree returns what the model's list scan returns. Outside these classes: exhaustive enumeration of all 17.9M vertex sequences up to 6 vertices on the 4x4 lattice, structured families with holes/islands under symmetries, stacked bands (up to 20 active edges), exact affine images (aspect ratios to 2^1000), mixed-scale pairs, 40 000-vertex polygons; the model at Float and XQ reproduces every Ok/Err.",
+    "note": "The theorem is about the model in exact arithmetic; binary64 rounding is covered by the bit-exact correspondence, the exhaustive enumeration and exact affine images. Genuine defects repaired by fix commits 18aefee and 745c06b; overflow of coordinate differences / gradients recorded as known findings.",
     "technique": "Lean 4 general sweep-invariant proof (acceptance of every valid set in general position) + full-path theorems for small/equal-abscissa classes + exhaustive enumeration against the Lean-modelled sweep"})
 LEVEL_TEXT["C15"].update({
     "text": LEVEL_TEXT["C15"]["text"] + " Added: C15General.general_total - in general position every run ends in Ok or in an Overlap error naming an input point (no panic, no out-of-fuel, no other error), and Ok characterises validity. Added (all inputs): the model never fails with a heap-encoding panic, never reaches unreachable!(), never indexes a missing registered edge (C15Heap); a RefCell borrow panic can only arise from a pass that starts with a self-loop or coinciding partners among the registered edges (C15Borrow), a condition monitored by the driver on every compared input (C15Monitor: while it holds, no panic of any kind). Large polygons (to 40 000 vertices, 120 000 in the thorough tier) run in child processes on a 2 MiB stack.",
